@@ -12,80 +12,136 @@ Definition show_fres (r : fres) : string :=
   end.
 Definition check (rs : list rune) : string := digest (show_fres (format_res rs)).
 Definition full (rs : list rune) : string := show_fres (format_res rs).
-Eval vm_compute in ("<<<M1944>>>" ++ check (runes_of_ascii "// packet A { u8 x, }
-packet string_ {
-    @tag(4294967296)
-    @calculatedFrom(""" ++ [128512]%N ++ runes_of_ascii """)
-    @calculatedFrom(""1"")
-    leftPad @lengthOf(int) ``,
-    repeat Packet {
-        zchar[0] options1 `line1
-                line2`,
-    },
-    @calculatedFrom("""")
-    float32 u8x,
-    float,
-    i64_ {
-        packetx {
-            i16 falsey,
-            f32 repeatCount `{ , }`,
-        },
-        repeat char[0] i8i8,
-        string o @lengthOf(options1),
-    },
-    i64_ @calculatedFrom(""a\""b"") `a\`,
-    @rightPad()
-    @lengthOf(packetx)
-    match matchKey as stringy {
-        ""a	b"" : body,
-    },
-    // " ++ [27880; 37322]%N ++ runes_of_ascii "
-    @lengthOf(u128)
-    @calculatedFrom(""`tick`"")
-    @rightPad()
-    // @lengthOf(
-    repeat falsey string_ `" ++ [28040; 24687; 31867; 22411]%N ++ runes_of_ascii "`,
-    string As `it's`,
-    @calculatedFrom(""" ++ [28040; 24687]%N ++ runes_of_ascii """)
-    repeat rootA {
-        float64 body,
-    },
+Eval vm_compute in ("<<<M1365>>>" ++ check (runes_of_ascii "// top
+options // c0a
+  // c0b
+{ // c1
+StringPrefixLenType // c2a
+  // c2b
+= // c3
+u8
+    // c4
+; // c5a
+  // c5b
+ArrayPrefixLenType // c6
+= // c7a
+  // c7b
+u8 // c8
+; // c9
+FixedStringPadFromLeft
+    // c10
+= // c11
+false ; // c13
+FixedStringPadChar
+    // c14
+= ' ' ; // c17a
+  // c17b
 }
-
-options {
-    zchar = true;
-    i8i8 = 3;
+    // c18
+packet // c19
+Ack
+    // c20
+{
+    // c21
+char[]
+    // c22
+tag7
+    // c23
+, }
+    // c25
+packet Reject // c27a
+  // c27b
+{ InSym61 // c29a
+  // c29b
+{ // c30
+repeat // c31
+Ack , zchar[ // c34
+4 ] // c36a
+  // c36b
+f1 // c37a
+  // c37b
+, } // c39a
+  // c39b
+, } // c41
+packet // c42a
+  // c42b
+Logout {
+    // c44
+char[ // c45a
+  // c45b
+4 // c46a
+  // c46b
+] // c47a
+  // c47b
+clOrdID
+    // c48
+, // c49
 }
-
-packet leftPad {
-    @calculatedFrom("""")
-    //x
-    @leftPad(' ')
-    @calculatedFrom(""abc"")
-    repeat MetaDataX {
-        char[] Pad,
-        body @lengthOf(Foo),
-        uint64 i8i8,
-        char[42] options1 @calculatedFrom(""x y""),
-    },
-}
-
-packet stringy {
-    @calculatedFrom(""" ++ [28040; 24687]%N ++ runes_of_ascii """)
-    BodyLength len,
-    @lengthOf(u)
-    i8i8 metadata,
-    @calculatedFrom(""a\\"")
-    //x
-    packetx,
-    f64 i8i8 @lengthOf(Header),
-    metadata `
-        `,
-    @lengthOf(int)
-    repeat falsey,
-    repeat char[] trueish,
-}")).
-Eval vm_compute in ("<<<M1858>>>" ++ check (runes_of_ascii "packet _x {
+    // c50
+root // c51
+packet // c52a
+  // c52b
+Cancel // c53a
+  // c53b
+{ @leftPad
+    // c55
+( // c56a
+  // c56b
+' ' // c57a
+  // c57b
+) char[ 10 // c60a
+  // c60b
+] price
+    // c62
+,
+    // c63
+u8 // c64
+x
+    // c65
+, u32 // c67a
+  // c67b
+venue // c68a
+  // c68b
+@lengthOf( // c69
+Body
+    // c70
+) , // c72
+match // c73a
+  // c73b
+x // c74a
+  // c74b
+as
+    // c75
+Body
+    // c76
+{
+    // c77
+[ // c78a
+  // c78b
+92 // c79
+, 175 // c81
+] : Logout , 26 :
+    // c87
+Reject // c88
+, // c89a
+  // c89b
+144
+    // c90
+: // c91
+Ack // c92a
+  // c92b
+, } // c94
+, // c95
+u16
+    // c96
+count // c97
+@calculatedFrom(
+    // c98
+""CRC32""
+    // c99
+) // c100
+, } ")).
+Eval vm_compute in ("<<<M1857>>>" ++ check (runes_of_ascii "packet _x {
     leftPad `it's`,
     match Logon as matchKey {
         ""packet"" : stringy,
@@ -152,7 +208,7 @@ packet Logon {
         line2`,
     pack lengthOf,
 }// `tick` ""quote"" 'q'")).
-Eval vm_compute in ("<<<M1691>>>" ++ check (runes_of_ascii "  options
+Eval vm_compute in ("<<<M1696>>>" ++ check (runes_of_ascii "  options
 
 {FixedStringPadFromLeft
 =	true ;
@@ -317,527 +373,626 @@ falsey
 """ ++ [233]%N ++ runes_of_ascii "t" ++ [233]%N ++ runes_of_ascii """	, ""{,}"" ,	""abc""
     , """ ++ [233]%N ++ runes_of_ascii "t" ++ [233]%N ++ runes_of_ascii """]:int, 4294967296 : tag , } , }
 ")).
-Eval vm_compute in ("<<<M1943>>>" ++ check (runes_of_ascii "// top
-options {
-    // c1
-    StringPrefixLenType = u8;// c5a
-    // c5b
-    ArrayPrefixLenType = u8;// c9
-    FixedStringPadFromLeft = false;// c13
-    FixedStringPadChar = ' ';// c17a
-    // c17b
-}
-
-// c18
-packet Ack {
-    // c21
-    char[] tag7,
-}
-
-// c25
-packet Reject {
-    InSym61 {
-        // c30
-        repeat Ack,
-        zchar[4] f1,
-    },
-}// c41
-
-packet Logout {
-    // c44
-    char[4] clOrdID,// c49
-}
-
-// c50
-root packet Cancel {
-    @leftPad(' ')
-    char[10] price,
-    // c63
-    u8 x,
-    u32 venue @lengthOf(Body),// c72
-    match x as Body {
-        // c77
-        [
-            92,
-            175
-        ] : Logout,
-        26 : Reject,
-        // c89a
-        // c89b
-        144 : Ack,
-    },// c95
-    u16 count @calculatedFrom(""CRC32""),
-}")).
-Eval vm_compute in ("<<<M192>>>" ++ check (runes_of_ascii "// trailing space 
-options { f32a=
-false;	stringy=	true
+Eval vm_compute in ("<<<M1380>>>" ++ check (runes_of_ascii "// top
+options // c0
+{ // c1
+LittleEndian = true
+    // c4
 ;
-u=  ""\" ++ [233]%N ++ runes_of_ascii """  ;
-    stringy = false;
-} packet options1 // " ++ [27880; 37322]%N ++ runes_of_ascii "
-{
-} MetaData
-packetx { f32 uint8x  ,  } root packet zchar {
-@tag( 4294967296
-) @lengthOf(a1
-)
-i8
-_x
-`it's` ,//x
-char[]	o , body
-    ,
-zchar[ 65535] msg_type
-`crlf
-line` , repeat
-    BodyLength{ repeat char[ 65535
-    ] stringy,
-},
-@calculatedFrom( """ ++ [128512]%N ++ runes_of_ascii """
-) @tag( 10
-    // a // b
-    ) repeat f32
-lengthOf`line1
-line2` , repeat  u {
-    uint32 Z9_, //
-repeat body
-`
-` , }  , @tag( 4294967296
-) i64_ @lengthOf( tag
-    // packet A { u8 x, }
-    ), @lengthOf(//	t
-float) @lengthOf(
-    // " ++ [128512]%N ++ runes_of_ascii " emoji
-    packetx	) @calculatedFrom( """ ++ [128512]%N ++ runes_of_ascii """
-)	repeat x_y_z u  ,@tag( 65535 )u8
-A	,} //")).
-Eval vm_compute in ("<<<M1872>>>" ++ check (runes_of_ascii "root packet matchKey {
-    match Foo as Z9_ {
-        // c
-        [""x y"", ""1"", 007, 7] : pack,
-        ""`tick`"" : u128,
-        ""a	b"" : msg_type,
-        [00, 65535] : a1,
-        ""it's"" : Foo,
-        // " ++ [128512]%N ++ runes_of_ascii " emoji
-        [""""] : u,
-    },
+    // c5
 }
-
-packet calculatedFrom {
-    msg_type {
-        T @calculatedFrom(""\n""),
-        float64 i8i8,
-        As `
-        `,
-        u32 rootA @lengthOf(float),
-    },
-}
-
-packet x_y_z {
-    @tag(0)
-    i64_ @lengthOf(MetaDataX),
-}
-
-packet A {
-    @calculatedFrom(""a\\"")
-    @calculatedFrom(""abc"")
-    _x u `say ""hi""`,
-}
-
-options {
-    // trailing space 
-    metadata = ""a\\"";// a // b
-}")).
-Eval vm_compute in ("<<<M1345>>>" ++ check (runes_of_ascii "options {
-    LittleEndian = false;
-    ArrayPrefixLenType = u8;
-    FixedStringPadFromLeft = true;
-    FixedStringPadChar = '0';
-}
-packet Heartbeat {
-    string lastPx,
-    uint8 Qty,
-    i64 Acct,
-    char[4] Ref,
-}
-packet Fill {
-    uint8 Ref,
-    Heartbeat,
-    f32 OrderId,
-    repeat f32 x,
-}
-root packet Order {
-    zchar[2] OrderId,
-    zchar[2] Acct,
-    zchar[1] Note,
-    zchar[9] Qty,
-    string price,
-    string tag7,
-    u32 x,
-    match x as Body {
-        123 : Fill,
-        112 : Heartbeat,
-    },
-    u32 seqNo @calculatedFrom(""CR\
-C32""),
-}
-")).
-Eval vm_compute in ("<<<M1846>>>" ++ check (runes_of_ascii "//x
-root packet float {
-    options1 A,
-    @tag(42)
-    u8x {
-        tag @calculatedFrom(""\" ++ [233]%N ++ runes_of_ascii """) `tab	here`,
-    },
-    int16 asx,
-    @lengthOf(o)
-    @rightPad()
-    repeat int Logon,
-    @calculatedFrom(""// no comment"")
-    @leftPad('\x00')
-    @rightPad('0')
-    zchar[65535] o `
-    `,
-    repeat As {
-        //x
-        repeat uint16 o,
-        repeat char[1] o,
-        u128 metadata,
-        repeat char[7] Header,
-    },
-    @tag(0123456789)
-    a1 tag,
-    float32 asx,
-    repeat len ``,
-}")).
-Eval vm_compute in ("<<<M48>>>" ++ check (runes_of_ascii "root	packet Logon { @calculatedFrom( """" ) @lengthOf( int ) @tag( 3
-) match _x
-as // a // b
-i64_ { 10:asx
-// `tick` ""quote"" 'q'
-/// triple
-""" ++ [128512]%N ++ runes_of_ascii """ : crc ,[ 0
-,
-007
-] : float  ,// trailing space 
-}
-    , repeat //	t
-uint16
-leftPad  ,
-    }
-    // " ++ [27880; 37322]%N ++ runes_of_ascii "
-    packet charz
-{  } MetaData
-int {
-//
-// trailing space 
-zchar[ 4294967296 ]matchKey
-,
-asx rootA
-    `doc`
-, Foo string_ `// not a comment`
-,
-    char[]u8x , // `tick` ""quote"" 'q'
-roots
-float , }
-")).
-Eval vm_compute in ("<<<M1411>>>" ++ check (runes_of_ascii "// top
-MetaData Packet {
-    // c2
-}
-
-// c3
-packet charz {
     // c6
-    Foo asx `it's`,
-    // c10
-    @lengthOf(T)
-    // c13
-    @calculatedFrom("""")
-    // c16
-    @calculatedFrom(""x y"")
-    // c19
-    zchar[007] repeatCount @lengthOf(int) `a\`,
-    // c28
-    i8 string_,
-    // c31
-    repeat options1 Pad,
-    // c35
-}
-
-// c36
-root packet Packet {
-    // c40
-    int8 float `doc`,
-    // c44
-}
-// c45")).
-Eval vm_compute in ("<<<M372>>>" ++ check (runes_of_ascii "// @lengthOf(
-MetaData leftPad { string	options1`say ""hi""` ,
-    //x
-    int16 metadata`" ++ [233]%N ++ runes_of_ascii "`,f32 i64_
-//	t
-// c
-, }  packet
-trueish { // c
-MetaDataX roots ,_x
-    a1 , match
-packetx as charz { 0
-: // c
-f32a ,
-} //
-, repeat body Logon , }	options { repeatCount=
-    int8
-charz // `tick` ""quote"" 'q'
-=	char[];  msg_type =""it's""	u
-=
-    007 Z9_
-    = uint32
-    //
-    }")).
-Eval vm_compute in ("<<<M100>>>" ++ check (runes_of_ascii "
-root packet
-a1
-    {
-tag Pad``
-, } options {
-}
-    root packet int	{
-    uint64 f32a , } packet
-MetaDataX {// c
-@leftPad( ' ' ) /// triple
-repeat uint16 Header	`{ , }`
-,
-// `tick` ""quote"" 'q'
-/// triple
-}
-options {
-Z9_= false
-    falsey //	t
-= ""x y"" ; rootA = false
-    // a // b
-    Foo	=true
-lengthOf
-    = float64 }")).
-Eval vm_compute in ("<<<M32>>>" ++ check (runes_of_ascii "packet int { T/// triple
-{ repeat _x ,	} ,
-    i64_ _x
-    `
-`, @calculatedFrom( ""x y"" )u32 A
-,  match a1 as
-    i8i8 { [ ""1""
-,
-4294967296
-]:
-    a1 ,"""":	a1
-    , 007: a1 , [ ""CRC32"" ] :Header} , int64 As, int8 a1 , //
-char[] float
-`tab	here`/// triple
-,
-repeat zchar[ 1	]u8x,
-} /// triple")).
-Eval vm_compute in ("<<<M1833>>>" ++ check (runes_of_ascii "packet Sub	{u8
-a  ,
-
-    @calculatedFrom(""CRC16""
-
-)
-	i32 SubSum , 
-}
-root
-	packet
-Frame 
-{ u16	MsgType
-
-    , u16 
-BodyLen @lengthOf( Body
-
-    )
-    ,Sub
-
-Body  ,string
-note ,
-@calculatedFrom( ""CRC16"" )
-
-    i32  Checksum
-
-    , u8
-tail ,
-}
-
-")).
-Eval vm_compute in ("<<<M1930>>>" ++ check (runes_of_ascii "packet
-roots {
-
-    @calculatedFrom(
-
-    ""a\\"" 
-)
-@lengthOf( packetx
-) match repeatCount
-	as  body  {	007
-:lengthOf 
-, 00:  // `tick` ""quote"" 'q'
-zchar
-    ,
-} ,
-	char[]
-    chars `say ""hi""` ,
-} MetaData
-packetx
-{  }
-
-")).
-Eval vm_compute in ("<<<M1548>>>" ++ check (runes_of_ascii "
-MetaData	// a // b
-
-	o
-{  string  Foo 
-,
-}
-MetaData
-    msg_type
-
-    { Header len
-    `" ++ [28040; 24687; 31867; 22411]%N ++ runes_of_ascii "`
-
-, }	options
-
-{	tag
-	='0'
-;
-
-    o
-=
-
-    ""CRC32""
-
-;
+packet // c7
 Logon
-	=
-""`tick`""
-;  // a // b
-    }
-")).
-Eval vm_compute in ("<<<M44>>>" ++ check (runes_of_ascii "
-packet repeatCount
-    {
-trueish , } packet uint8x
-{/// triple
-match u8x as calculatedFrom
-    { [ 4294967296 ]: len ,
-[ """ ++ [128512]%N ++ runes_of_ascii """ ,	""" ++ [233]%N ++ runes_of_ascii "t" ++ [233]%N ++ runes_of_ascii """ , 255 , //
-1
-] : falsey , } , }
-")).
-Eval vm_compute in ("<<<M453>>>" ++ check (runes_of_ascii "packet uint8x
-{ match pack
-    as msg_type	{
-    0123456789 :	float
+    // c8
+{ // c9a
+  // c9b
+u8 // c10
+x // c11
+,
+    // c12
+string
+    // c13
+user
+    // c14
+,
+    // c15
+} // c16
+packet // c17
+Logout {
+    // c19
+u16 // c20a
+  // c20b
+reason // c21a
+  // c21b
+, // c22
 }
+    // c23
+packet
+    // c24
+Empty { // c26a
+  // c26b
+}
+    // c27
+root // c28
+packet
+    // c29
+Frame // c30
+{ // c31
+u16 // c32a
+  // c32b
+MsgType , // c34a
+  // c34b
+u8 BodyLen // c36a
+  // c36b
 @lengthOf(
-} packet //	t
-a1
-    { } options {packetx
-    = '\x00'	; u128= ""a	b""  ; }
+    // c37
+Body
+    // c38
+) , // c40a
+  // c40b
+u8 // c41a
+  // c41b
+flags // c42a
+  // c42b
+, Logon // c44a
+  // c44b
+Body
+    // c45
+, // c46a
+  // c46b
+u32 // c47a
+  // c47b
+trailer // c48a
+  // c48b
+, // c49a
+  // c49b
+} // c50a
+  // c50b
 ")).
-Eval vm_compute in ("<<<M518>>>" ++ check (runes_of_ascii "packet uint8x
-{ match pack
-    as msg_type	{
-    0123456789 :	float
-}
-,
-} packet //	t
-a1
-    { } options {packetx
-    = '\x00'	; u128 true ""a	b""  ; }
-")).
-Eval vm_compute in ("<<<M531>>>" ++ check (runes_of_ascii "packet uint8x
-{ match pack
-    as msg_type	{
-    0123456789 :	float
-}
-,
-} packet //	t
-a1
-    { } options {packetx
-    = '\x00'	; u128= ""a	b""  ; } }
-")).
-Eval vm_compute in ("<<<M432>>>" ++ check (runes_of_ascii "packet uint8x
-{ match pack
-    as msg_type	{
-    : 0123456789	float
-}
-,
-} packet //	t
-a1
-    { } options {packetx
-    = '\x00'	; u128= ""a	b""  ; }
-")).
-Eval vm_compute in ("<<<M450>>>" ++ check (runes_of_ascii "packet uint8x
-{ match pack
-    as msg_type	{
-    0123456789 :	float
+Eval vm_compute in ("<<<M1780>>>" ++ check (runes_of_ascii "packet tag {
+    @calculatedFrom(""x y"")
+    lengthOf {
+        options1 `
+        `,
+    },
+    @tag(7)
+    int {
+        //x
+        // " ++ [27880; 37322]%N ++ runes_of_ascii "
+        char[007] calculatedFrom @lengthOf(metadata),
+        tag @lengthOf(falsey),
+        f32 calculatedFrom `{ , }`,
+        i8i8 {
+            string i64_ @lengthOf(asx) `it's`,
+            u @calculatedFrom(""\n""),
+        },
+    },
+    @calculatedFrom(""abc"")
+    @leftPad(' ')
+    uint64 calculatedFrom,// " ++ [27880; 37322]%N ++ runes_of_ascii "
 }
 
-} packet //	t
-a1
-    { } options {packetx
-    = '\x00'	; u128= ""a	b""  ; }
-")).
-Eval vm_compute in ("<<<M510>>>" ++ check (runes_of_ascii "packet uint8x
-{ match pack
-    as msg_type	{
-    0123456789 :	float
+packet o {
+    Header,
+    @lengthOf(i8i8)
+    float32 Pad,
+    char[42] leftPad @calculatedFrom(""""),
+    @tag(255)
+    body u,
 }
-,
-} packet //	t
-a1
-    { } options {packetx
-    = '\x00'	; = ""a	b""  ; }
+
+packet lengthOf {
+    // packet A { u8 x, }
+    // c
+    @tag(255)
+    char[0123456789] o `
+    `,
+}")).
+Eval vm_compute in ("<<<M247>>>" ++ check (runes_of_ascii "
+options { leftPad // packet A { u8 x, }
+= 0
+;
+    //
+    Logon
+    =
+char // `tick` ""quote"" 'q'
+i64_ = '\x00'
+; }
+options { crc =
+i32	; matchKey =
+255
+    leftPad = ' ' ; metadata= 42// trailing space 
+; packetx =10
+    }
+root packet//
+A { @calculatedFrom( ""x y"" // c
+)/// triple
+zchar[ 00]
+f32a, @tag(
+255 )
+    zchar[
+0123456789 ]	a1
+@lengthOf(As )`" ++ [28040; 24687; 31867; 22411]%N ++ runes_of_ascii "`
+    /// triple
+    , int16 body, // `tick` ""quote"" 'q'
+uint64
+x
+@calculatedFrom(""1""
+//	t
+// " ++ [128512]%N ++ runes_of_ascii " emoji
+) // packet A { u8 x, }
+`line1
+line2` ,@lengthOf( Logon )char[
+    0// packet A { u8 x, }
+]float@calculatedFrom(
+""abc"" ) ,
+} MetaData u128 { }
 ")).
-Eval vm_compute in ("<<<M718>>>" ++ check (runes_of_ascii "// @lengthOf(
-packet i8i8 { u128 o , }
-options { MetaDataX = true;
-    BodyLength =""packet"" x_y_z= 007
-crc //x
-= ""abc"" ;
-    msg_type as
-i16 }")).
-Eval vm_compute in ("<<<M710>>>" ++ check (runes_of_ascii "// @lengthOf(
-packet i8i8 { u128 o , }
-options { MetaDataX = true;
-    BodyLength =""packet"" x_y_z= 007
-crc //x
-= ""abc"" ;
-    msg_type 
-i16 }")).
-Eval vm_compute in ("<<<M1620>>>" ++ check (runes_of_ascii "packet
+Eval vm_compute in ("<<<M1366>>>" ++ check (runes_of_ascii "
+options {
 
-A
-    {
-match 
-k as
-	n{
-[1 ,	22  ,""c c""
+    StringPrefixLenType	= u8
+	;
+ArrayPrefixLenType	= u8  ; FixedStringPadFromLeft
+    =
+    false ;
+FixedStringPadChar
+=
+    ' '
+;
+    }
 
-    ,	4 
+packet Ack
+	{ char[] 
+tag7 ,}
+
+    packet
+Reject
+	{
+	InSym61 { 
+repeat
+Ack ,zchar[
+4
+	]
+f1
+	,	}	,	}
+
+packet 
+Logout 
+{
+    char[
+
+4 ]clOrdID
+
+,}
+
+root  packet
+	Cancel  { @leftPad
+( ' '	)
+
+char[  10	]
+price,u8 x
+
+    ,
+	u32 venue
+
+    @lengthOf(
+    Body
+)
+
 ,
+match
+	x as Body 
+{
+    [
+	92,
 
-5, ""f"",
+175
 
-    7  ,  8	,""i""
+]:
+	Logout
+
+,26
+
+: Reject 
+, 144 :Ack
+
+, }
+,u16
+
+    count
+	@calculatedFrom( ""CRC32""
+
+),
+} ")).
+Eval vm_compute in ("<<<M1420>>>" ++ check (runes_of_ascii "// top
+
+MetaData
+    // c0
+
+  uint8x 
+    // c1
+{ 
+// c2
+    char[] 
+        // c3
+	f32a 
+	// c4
+		`// not a comment`
+
+    // c5
+
+,  
+      // c6
+  float32
+        // c7
+  roots 
+    // c8
+    ,
+
+// c9
+	  char[ 
+	// c10
+  7 
+	    // c11
+] 
+        // c12
+    u8x 
+    // c13
 , 
-10 ,  11]
-    :B
+    // c14
+		zchar[ 
+// c15
+		10
 
-    2 : 
-C }
-	,
+// c16
+
+	]
+    // c17
+	f32a  
+      // c18
+    , 
+  // c19
+  u64 
+
+// c20
+  pack 
+
+// c21
+, 
+
+// c22
+u16 
+  // c23
+  pack
+
+    // c24
+, 
+    // c25
+}
+        // c26")).
+Eval vm_compute in ("<<<M1594>>>" ++ check (runes_of_ascii "
+
+  MetaData  T { a1
+
+Packet,	// " ++ [128512]%N ++ runes_of_ascii " emoji
+uint8x
+
+    // @lengthOf(
+    	//x
+
+Pad`" ++ [233]%N ++ runes_of_ascii "`,
+
+a1 
+    // " ++ [27880; 37322]%N ++ runes_of_ascii "
+  	MetaDataX  ,
+zchar[
+    00	]
+
+    metadata
+    `u8 x,` 
+,
+	Pad// trailing space 
+  x
+
+`
+`  ,i8 
+u8x
+,
+}  options	{  As 
+=
+
+    false  ; }	root
+
+packet options1
+    {
+	@calculatedFrom(""// no comment"" )
+@lengthOf( _x
+	)
+    @tag(
+	007
+)repeat
+// trailing space 
+
+// @lengthOf(
+  f32
+i8i8`" ++ [233]%N ++ runes_of_ascii "` , @rightPad  ( ' ' // " ++ [27880; 37322]%N ++ runes_of_ascii "
+
+)  repeat Pad
+,
+
+    }")).
+Eval vm_compute in ("<<<M1459>>>" ++ check (runes_of_ascii "options {
+}
+
+packet charz {
+    @rightPad(' ')
+    @calculatedFrom(""a\\"")
+    repeat int crc `two words`,
+    string stringy @calculatedFrom(""a	b"") `// not a comment`,//
+    char i8i8,
+}
+
+MetaData crc {
+    // `tick` ""quote"" 'q'
+    crc i64_ `{ , }`,
+    // `tick` ""quote"" 'q'
+    i32 u128,// packet A { u8 x, }
+    BodyLength Header,
+    char[0123456789] Packet `u8 x,`,
+    uint8 repeatCount,//	t
+}")).
+Eval vm_compute in ("<<<M1929>>>" ++ check (runes_of_ascii "options
+{ LittleEndian	=true  ;
+	}
+
+packet 
+Logon {  u8 x  ,
+    }
+    packet
+	Logout
+    {
+
+u16 reason
+,
+	}
+
+    root
+	packet
+
+    Frame  {
+
+u64
+
+    Kind
+
+    ,
+	u64
+	Kind2
+
+    ,
+	match Kind
+as
+
+    Body {
+
+1	:Logon
+,[
+    2
+	, 3 
+, 
+4 ]
+:Logout ,
+
+    100:
+	Logon
+,
+},  match
+    Kind2 as
+
+    Trailer  {
+    0
+
+    : Logout
+,
+} 
+,}")).
+Eval vm_compute in ("<<<M1896>>>" ++ check (runes_of_ascii "packet a1 {
+    @leftPad()
+    float @lengthOf(uint8x),
+}
+
+packet Logon {
+    char Logon @calculatedFrom(""a\\""),
+    T stringy,
+    //
+    // c
+    repeat uint8 stringy `two words`,
+}
+
+MetaData charz {
+    u tag `
+    `,
+    a1 falsey,//x
+    Z9_ matchKey,
+    f64 lengthOf `a\`,
+    f32a roots ``,
+    float64 x_y_z,
+}")).
+Eval vm_compute in ("<<<M89>>>" ++ check (runes_of_ascii "packet Foo // " ++ [128512]%N ++ runes_of_ascii " emoji
+{@lengthOf( f32a )
+char[
+0123456789 //	t
+] float `u8 x,` ,}
+    packet // a // b
+i64_ {@lengthOf(stringy // packet A { u8 x, }
+)
+    char[] int @calculatedFrom(""{,}"" ) ,@tag(
+007 ) //
+int64
+stringy`" ++ [233]%N ++ runes_of_ascii "` ,  char[]A @calculatedFrom(
+""\" ++ [233]%N ++ runes_of_ascii """
+    )	`doc` ,// " ++ [27880; 37322]%N ++ runes_of_ascii "
+}
+")).
+Eval vm_compute in ("<<<M202>>>" ++ check (runes_of_ascii "packet Z9_
+    { @calculatedFrom( ""packet"") char //
+BodyLength , match chars as falsey {[65535,
+    // c
+    """ ++ [128512]%N ++ runes_of_ascii """ ,""" ++ [28040; 24687]%N ++ runes_of_ascii """ , ""`tick`""  , 10,
+    ""a\\"" ,""a\""b"" // @lengthOf(
+]: repeatCount , ""x y"" :chars , // " ++ [128512]%N ++ runes_of_ascii " emoji
+65535
+://x
+calculatedFrom , } , }
+")).
+Eval vm_compute in ("<<<M364>>>" ++ check (runes_of_ascii "packet  _x
+{ repeat char[] matchKey// " ++ [128512]%N ++ runes_of_ascii " emoji
+, @leftPad( ) x_y_z/// triple
+T , Pad
+{ zchar[ 1] rootA `tab	here`
+,},Foo
+    @calculatedFrom(
+    """"
+    // trailing space 
+    ),
+}	packet MetaDataX {
+float64 body, }
+")).
+Eval vm_compute in ("<<<M1509>>>" ++ check (runes_of_ascii "packet A {
+    Inner {
+        match k as n {
+            [
+                1, 22, 007, 4, 5,
+                66, 7, 8, 9, 10,
+                11, 12
+            ] : B,
+        },
+    },
+}")).
+Eval vm_compute in ("<<<M191>>>" ++ check (runes_of_ascii "options
+{ Logon
+=char[	00
+]
+;
+zchar
+    = false Logon =	i8
+    ;}options { asx = '0' int = ""\" ++ [233]%N ++ runes_of_ascii """  calculatedFrom= '\x00'// packet A { u8 x, }
+; // `tick` ""quote"" 'q'
+}
+")).
+Eval vm_compute in ("<<<M418>>>" ++ check (runes_of_ascii "packet uint8x
+{ match pack
+    @rightPad msg_type	{
+    0123456789 :	float
+}
+,
+} packet //	t
+a1
+    { } options {packetx
+    = '\x00'	; u128= ""a	b""  ; }
+")).
+Eval vm_compute in ("<<<M552>>>" ++ check (runes_of_ascii "packet uint8x
+{ match pack
+    as msg_type	{
+    0123456789 :	float
+}
+,
+} packet //	t
+na" ++ [239]%N ++ runes_of_ascii "ve
+    { } options {packetx
+    = '\x00'	; u128= ""a	b""  ; }
+")).
+Eval vm_compute in ("<<<M536>>>" ++ check (runes_of_ascii "packet uint8x
+{ match pack
+    as msg_type	{
+    0123456789 :	float
+}
+,
+} packet //	t
+a1
+    { } options {packetx
+    = '\x00'	/; u128= ""a	b""  ; }
+")).
+Eval vm_compute in ("<<<M477>>>" ++ check (runes_of_ascii "packet uint8x
+{ match pack
+    as msg_type	{
+    0123456789 :	float
+}
+,
+} packet //	t
+a1
+    { options } {packetx
+    = '\x00'	; u128= ""a	b""  ; }
+")).
+Eval vm_compute in ("<<<M676>>>" ++ check (runes_of_ascii "// @lengthOf(
+packet i8i8 { u128 o , }
+options { MetaDataX = true;
+    BodyLength =""packet"" x_y_z x_y_z= 007
+crc //x
+= ""abc"" ;
+    msg_type =
+i16 }")).
+Eval vm_compute in ("<<<M520>>>" ++ check (runes_of_ascii "packet uint8x
+{ match pack
+    as msg_type	{
+    0123456789 :	float
+}
+,
+} packet //	t
+a1
+    { } options {packetx
+    = '\x00'	; u128=   ; }
+")).
+Eval vm_compute in ("<<<M529>>>" ++ check (runes_of_ascii "packet uint8x
+{ match pack
+    as msg_type	{
+    0123456789 :	float
+}
+,
+} packet //	t
+a1
+    { } options {packetx
+    = '\x00'	; u128= ""a	b""")).
+Eval vm_compute in ("<<<M646>>>" ++ check (runes_of_ascii "// @lengthOf(
+packet i8i8 { u128 o , }
+options { MetaDataX = true;
+    BodyLength =""packet"" x_y_z= 
+crc //x
+= ""abc"" ;
+    msg_type =
+i16 }")).
+Eval vm_compute in ("<<<M1458>>>" ++ check (runes_of_ascii "
+packet	A
+{
+
+match 
+k as n  {[
+""a"" ,
+
+""bb""
+    ,""c c"" ,""d"" 
+,
+""e"" ,""f""
+
+,
+""g""
+    ,
+
+    ""h"" ,  ""i""
+
+    ] :
+
+B 
+2:
+C
+} ,
 }
 
 ")).
-Eval vm_compute in ("<<<M1848>>>" ++ check (runes_of_ascii "MetaData leftPad {
+Eval vm_compute in ("<<<M1721>>>" ++ check (runes_of_ascii "// c
+MetaData leftPad {
     chars MetaDataX,
 }
 
@@ -847,222 +1002,181 @@ packet repeatCount {
 
 MetaData pack {
     As Foo,
-    // c
 }")).
-Eval vm_compute in ("<<<M1677>>>" ++ check (runes_of_ascii "options{
-
-_x =
-""`tick`"" 
-; matchKey	=
-
-    ""it's""
-
-;
-
-options1
-
-    =
-
-    u16	;
-	stringy=
-    true
-	    // c
-
-	}
-
-")).
-Eval vm_compute in ("<<<M1159>>>" ++ check (runes_of_ascii "MetaData leftPad { chars MetaDataX , } packet repeatCount // c
-{ char[ 255 ] uint8x `" ++ [233]%N ++ runes_of_ascii "` , } MetaData pack { As Foo , }")).
-Eval vm_compute in ("<<<M1671>>>" ++ check (runes_of_ascii "
-MetaData
-    zchar 
-{ roots A ,  char[]
-falsey  `line1
-line2`
-	,
-// " ++ [128512]%N ++ runes_of_ascii " emoji
-  // @lengthOf(
-	int 
-crc  ,
-}//	t
- 
-")).
-Eval vm_compute in ("<<<M1801>>>" ++ check (runes_of_ascii "  packet A  {
-
-    match k
-as
-n {
-[ 1 
-,
-
-""bb""	,007
-	,
-
-""d"" ,
-    5,""f"",
-
-    7
-]: B  2:
-C
-}
-
-    ,
-
-} ")).
-Eval vm_compute in ("<<<M142>>>" ++ check (runes_of_ascii "packet
-len
+Eval vm_compute in ("<<<M34>>>" ++ check (runes_of_ascii "options {
+Logon = 0 } options { msg_type = 3
+    MetaDataX =
     // " ++ [128512]%N ++ runes_of_ascii " emoji
-    { int64 a1	@lengthOf(x_y_z )	, }
-// c
-// trailing space 
-packet x_y_z { }
-
-")).
-Eval vm_compute in ("<<<M896>>>" ++ check (runes_of_ascii "packet A {
-  match k as n {
-    [1, ""bb"", 007, ""d"", 5, ""f"", 7, ""h"", 9, ""j"", 11] : B
-    2 : C
-  },
+    int8
+    uint8x=""""
+    ;
+    As = '0' }")).
+Eval vm_compute in ("<<<M1165>>>" ++ check (runes_of_ascii "MetaData leftPad { chars MetaDataX , } packet repeatCount { char[ 255 // c
+] uint8x `" ++ [233]%N ++ runes_of_ascii "` , } MetaData pack { As Foo , }")).
+Eval vm_compute in ("<<<M938>>>" ++ check (runes_of_ascii "packet A {
+    Inner {
+        u8 x `a
+    b
+  c`,
+        Deep {
+            u8 y `a
+    b
+  c`,
+        },
+    },
 }")).
-Eval vm_compute in ("<<<M876>>>" ++ check (runes_of_ascii "packet A {
-  match k as n {
-    [""a"", ""bb"", 007, ""d"", ""e"", 66, ""g"", ""h"", 9] : B
-    2 : C
-  },
+Eval vm_compute in ("<<<M973>>>" ++ check (runes_of_ascii "packet A {
+    match k as n {
+        ""\
+"" : B,
+        [""\
+"", 1] : C,
+        [1,2,3,4,5,""\
+""] : D,
+    },
 }")).
-Eval vm_compute in ("<<<M635>>>" ++ check (runes_of_ascii "
+Eval vm_compute in ("<<<M1726>>>" ++ check (runes_of_ascii "
 packet
-    asx {'1'match u128 as lengthOf
-{
-//	t
-// `tick` ""quote"" 'q'
-255 : x ,
-    } ,	}")).
-Eval vm_compute in ("<<<M637>>>" ++ check (runes_of_ascii "
-~packet
-    asx {match u128 as lengthOf
-{
-//	t
-// `tick` ""quote"" 'q'
-255 : x ,
-    } ,	}")).
-Eval vm_compute in ("<<<M587>>>" ++ check (runes_of_ascii "
-packet
-    asx {match u128 as lengthOf
 
-//	t
-// `tick` ""quote"" 'q'
-255 : x ,
-    } ,	}")).
-Eval vm_compute in ("<<<M621>>>" ++ check (runes_of_ascii "
-packet
-    asx {match u128 as lengthOf
-{
-//	t
-// `tick` ""quote"" 'q'
-255 : x ,
-    }")).
-Eval vm_compute in ("<<<M582>>>" ++ check (runes_of_ascii "
-packet
-    asx {match u128 as 
-{
-//	t
-// `tick` ""quote"" 'q'
-255 : x ,
-    } ,	}")).
-Eval vm_compute in ("<<<M1952>>>" ++ check (runes_of_ascii "  packet  A
-	{match
-	k  as n 
-{
-[ 1
-    ,
-22  ] :  B
+A
+	{
+	match
+k
+	as	n 
+{	[1  ,
+
+    ""bb"",  007	,""d""
+
+    , 5 ]:
+
+    B
     2
 
-: C
+:C
+}
 
-    }
+, }
 
-,}
 ")).
-Eval vm_compute in ("<<<M459>>>" ++ check (runes_of_ascii "packet uint8x
+Eval vm_compute in ("<<<M583>>>" ++ check (runes_of_ascii "
+packet
+    asx {match u128 as lengthOf lengthOf
+{
+//	t
+// `tick` ""quote"" 'q'
+255 : x ,
+    } ,	}")).
+Eval vm_compute in ("<<<M1254>>>" ++ check (runes_of_ascii "
+packet
+    Inner {
+    u8 a
+
+,
+} root
+	packet P
+
+    {  repeat
+    Inner items,	u8 
+x	, } ")).
+Eval vm_compute in ("<<<M474>>>" ++ check (runes_of_ascii "packet uint8x
 { match pack
     as msg_type	{
     0123456789 :	float
 }
-,")).
-Eval vm_compute in ("<<<M1283>>>" ++ check (runes_of_ascii "root packet P {
-    u16 a,
-    u32 Sum @calculatedFrom(""CR\
-C32""),
-}
+,
+} packet //	t
+a1")).
+Eval vm_compute in ("<<<M1704>>>" ++ check (runes_of_ascii "options
+
+    {}  // " ++ [128512]%N ++ runes_of_ascii " emoji
+      options { float// `tick` ""quote"" 'q'
+  = 65535
+    }
 ")).
-Eval vm_compute in ("<<<M1628>>>" ++ check (runes_of_ascii "packet o {
-}
-
-packet Pad {
-    BodyLength,
-}
-
-packet metadata {
+Eval vm_compute in ("<<<M857>>>" ++ check (runes_of_ascii "packet A {
+  match k as n {
+    [1, ""bb"", 007, ""d"", 5, ""f"", 7, ""h""] : B
+    2 : C
+  },
 }")).
-Eval vm_compute in ("<<<M1102>>>" ++ check (runes_of_ascii "// top
-MetaData
-    // c0
-tag
-    // c1
-{ // c2
+Eval vm_compute in ("<<<M390>>>" ++ check (runes_of_ascii "root packet SimpleMessage {
+	uint16 MsgType `" ++ [28040; 24687; 31867; 22411]%N ++ runes_of_ascii "`,
+	string JsonBody `Json" ++ [23383; 31526; 20018; 28040; 24687; 20307]%N ++ runes_of_ascii "`,
+}")).
+Eval vm_compute in ("<<<M853>>>" ++ check (runes_of_ascii "packet A {
+  match k as n {
+    [1, 22, 007, 4, 5, 66, 7, 8] : B
+    2 : C
+  },
+}")).
+Eval vm_compute in ("<<<M743>>>" ++ check (runes_of_ascii "int16 zchar[ } `doc` char u16 uint16 true false u8 msg_type """ ++ [233]%N ++ runes_of_ascii "t" ++ [233]%N ++ runes_of_ascii """ ""a\\"" pack")).
+Eval vm_compute in ("<<<M805>>>" ++ check (runes_of_ascii "packet A {
+  match k as n {
+    [1, ""bb"", 007, ""d""] : B
+    2 : C
+  },
+}")).
+Eval vm_compute in ("<<<M1920>>>" ++ check (runes_of_ascii "
+packet A
+
+{ u8
+    x
+, }// a
+		// b
+		packet
+B { }  // c
+  // d")).
+Eval vm_compute in ("<<<M155>>>" ++ check (runes_of_ascii "options
+{calculatedFrom
+= ""abc""
+;float=i16
+} // trailing space ")).
+Eval vm_compute in ("<<<M1091>>>" ++ check (runes_of_ascii "packet A { @leftPad() char[4] x, @rightPad( ) zchar[2] y, }")).
+Eval vm_compute in ("<<<M1810>>>" ++ check (runes_of_ascii "packet body {
+    i32 f32a `{ , }`,
 }
-    // c3
-")).
-Eval vm_compute in ("<<<M27>>>" ++ check (runes_of_ascii "options{Logon = """ ++ [28040; 24687]%N ++ runes_of_ascii """
-    ; BodyLength =
-    false
-; }
-")).
-Eval vm_compute in ("<<<M1206>>>" ++ check (runes_of_ascii "packet body { i32
+
+options {
+}
+// c")).
+Eval vm_compute in ("<<<M1210>>>" ++ check (runes_of_ascii "packet body { i32 f32a `{ , }`
 // c
-f32a `{ , }` , } options { }")).
-Eval vm_compute in ("<<<M1243>>>" ++ check (runes_of_ascii "root packet P {
-    repeat char cs,
-    u8 x,
-}
-")).
-Eval vm_compute in ("<<<M951>>>" ++ check (runes_of_ascii "MetaData M {
-    u8 x `x
-`,
-    T t `x
-`,
+, } options { }")).
+Eval vm_compute in ("<<<M1455>>>" ++ check (runes_of_ascii "MetaData _x {
+    i64 u128,
+    Packet Header,
 }")).
-Eval vm_compute in ("<<<M1067>>>" ++ check (runes_of_ascii "packet A {    u8 x, // c    u8 y,}")).
-Eval vm_compute in ("<<<M922>>>" ++ check (runes_of_ascii "root packet A {
-    u8 x `a
-b`,
+Eval vm_compute in ("<<<M957>>>" ++ check (runes_of_ascii "MetaData M {
+    u8 x `
+x`,
+    T t `
+x`,
 }")).
-Eval vm_compute in ("<<<M36>>>" ++ check (runes_of_ascii "// c
-packet asx  {} /// triple")).
-Eval vm_compute in ("<<<M381>>>" ++ check (runes_of_ascii "options{
-int
-=char[] ; }
-//
-")).
-Eval vm_compute in ("<<<M326>>>" ++ check (runes_of_ascii "  options{// a // b
-}
+Eval vm_compute in ("<<<M1396>>>" ++ check (runes_of_ascii "packet 
+A
 
+    { 
+u8
+    x`a
+b` ,	}")).
+Eval vm_compute in ("<<<M1394>>>" ++ check (runes_of_ascii "options {
+    metadata = ""a\\"";
+}")).
+Eval vm_compute in ("<<<M978>>>" ++ check (runes_of_ascii "packet A {
+ u8 x `d `, // c 
+}")).
+Eval vm_compute in ("<<<M757>>>" ++ check (runes_of_ascii "z>" ++ [65533]%N ++ runes_of_ascii "*" ++ [65533]%N ++ runes_of_ascii "7" ++ [65533; 65533; 65533; 65533]%N ++ runes_of_ascii "+" ++ [65533]%N ++ runes_of_ascii "~" ++ [65533; 0; 65533; 65533]%N ++ runes_of_ascii "c" ++ [1171]%N ++ runes_of_ascii "n" ++ [65533; 65533; 65533; 12; 65533]%N ++ runes_of_ascii "E>K")).
+Eval vm_compute in ("<<<M380>>>" ++ check (runes_of_ascii "root packet	Packet { }
 ")).
-Eval vm_compute in ("<<<M1519>>>" ++ check (runes_of_ascii "packet
-
-    A
-{ } ")).
-Eval vm_compute in ("<<<M1837>>>" ++ check (runes_of_ascii "
-packet falsey {}
+Eval vm_compute in ("<<<M1626>>>" ++ check (runes_of_ascii "// `tick` ""quote"" 'q'")).
+Eval vm_compute in ("<<<M112>>>" ++ check (runes_of_ascii "packet falsey { }
 ")).
-Eval vm_compute in ("<<<M1036>>>" ++ check (runes_of_ascii "packet A {
+Eval vm_compute in ("<<<M1051>>>" ++ check (runes_of_ascii "packet A {
 }
-// c" ++ [12]%N)).
-Eval vm_compute in ("<<<M1034>>>" ++ check (runes_of_ascii "packet A {
-}// c" ++ [12]%N)).
-Eval vm_compute in ("<<<M712>>>" ++ check (runes_of_ascii "// @lengthOf(
-")).
-Eval vm_compute in ("<<<M975>>>" ++ check (runes_of_ascii "// c ")).
-Eval vm_compute in ("<<<M737>>>" ++ check ([1875; 65533]%N)).
+// c" ++ [65279]%N)).
+Eval vm_compute in ("<<<M1082>>>" ++ check (runes_of_ascii "options { // a
+ }")).
+Eval vm_compute in ("<<<M1709>>>" ++ check (runes_of_ascii "MetaData u {
+}")).
+Eval vm_compute in ("<<<M758>>>" ++ check (runes_of_ascii "LE]u'")).
+Eval vm_compute in ("<<<M730>>>" ++ check (runes_of_ascii "//")).
